@@ -36,11 +36,20 @@ def srows_patches():
     """S-ROWS: the four container readers yield the rows the harness passes as 'source'."""
     from cutplace import rowio
 
-    def rows_of(source, *a, **k):
-        return source.rows() if hasattr(source, "rows") else iter(source)
+    def stub_for(original):
+        def rows_of(source, *a, **k):
+            with untraced():
+                kind = "rows" if hasattr(source, "rows") else ("list" if type(source) is list else "real")
+            if kind == "rows":
+                return source.rows()
+            if kind == "list":
+                return iter(source)
+            return original(source, *a, **k)  # e.g. the CID text itself, read through the real reader
 
-    return [(rowio, "delimited_rows", rows_of), (rowio, "excel_rows", rows_of), (rowio, "ods_rows", rows_of),
-            (rowio, "fixed_rows", rows_of)]
+        return rows_of
+
+    return [(rowio, name, stub_for(getattr(rowio, name)))
+            for name in ("delimited_rows", "excel_rows", "ods_rows", "fixed_rows")]
 
 
 class FaultyRows:
